@@ -105,6 +105,8 @@ PRED = {
                                   and rq_doc_wf(c["src"]) is not True),
     # C12-N16: an RQ (from JSON) with an operator whose name does not start with `std.`
     "rq-operator-without-std-prefix": lambda c: c["entry"] == "json_rq" and any(not n.startswith("std.") for n in rq_operator_names(c["src"])),
+    # C12-N17: a table reference with a nameless column
+    "rq-nameless-tableref-column": lambda c: c["entry"] == "json_rq" and re.search(r'\[\s*\{\s*"Single"\s*:\s*null\s*\}\s*,\s*\d+\s*\]', c["src"]) is not None,
     # C12-N15: the internal tuple helpers of std called from source
     "tuple-helper-call": lambda c: re.search(r"\b(_eq|_is_null|tuple_every|tuple_map|tuple_zip)\b", c["src"]) is not None,
     "mutated-pl-json": lambda c: c["entry"] == "json_pl" and c.get("family", "").startswith("json:") and c.get("family") not in ("json:orig", "json:int:lit"),
@@ -420,8 +422,22 @@ def run():
         # the formatter (finding H2, exponential in the nesting depth, was fixed by c8b3817): every family, deep
         for d in ([8, 18, 32, 100] if not ck.thorough else [8, 18, 32, 100, 400]):
             cases.append({"entry": "fmt", "src": mk(d), "stack_mb": 64, "family": "nest:%s:%d" % (fam, d), "prog": None})
-    # replays of the findings fixed since b55902d (H1 H2 N5 N6 N7; a recurrence is a VIOLATION) and of the open C12-N12
+    # replays of the findings fixed since b55902d (H1 H2 N5 N6 N7 N13; a recurrence is a VIOLATION) and of the open N14
     cases += CR.directed_cases(ck)
+    # the default stack of a spawned Rust thread (2 MiB): the entry points called from a worker thread -- every pool program must
+    # compile there; the structural families at depth 10 and 100 (F8 threshold on 2 MiB: ~67 for group / loop, ~190 for chains)
+    for p in progs:
+        cases.append({"entry": "compile", "src": p, "stack_mb": 2, "family": "pool", "prog": p, "target": "sql.generic"})
+    for fam, mk in S.NEST.items():
+        for d in (10, 100):
+            cases.append({"entry": "compile", "src": mk(d), "stack_mb": 2, "family": "nest:%s:%d" % (fam, d), "prog": None, "target": "sql.generic"})
+    cases.append({"entry": "compile", "src": "from t | filter " + " || ".join("a == %d" % i for i in range(200)), "stack_mb": 2, "family": "nest:or-chain:200", "prog": None, "target": "sql.generic"})
+    cases.append({"entry": "compile", "src": "from t | filter " + " || ".join("a == %d" % i for i in range(40)), "stack_mb": 2, "family": "nest:or-chain:40", "prog": None, "target": "sql.generic"})
+    # arithmetic operators at singular points (source, let, PL / RQ JSON); RQ documents with edited column names x dialects
+    cases += CR.arith_singular_cases(ck)
+    cases += CR.rq_column_cases(ck)
+    for src in ("from t | derive x = (std._eq 1)", "from t | filter (tuple_every 5)", "from t | derive x = (std.tuple_zip {a} 1)"):
+        cases.append({"entry": "compile", "src": src, "stack_mb": 64, "family": "N15:tuple-helper", "prog": None, "target": "sql.generic"})
 
     # replays of the open hang findings H3 / H4: own cap, no second look
     hang_cases = CR.open_hang_cases()
